@@ -6,11 +6,11 @@
     theorem fillWly_ok (r p n l) (hr : WfRule r) (hp : WfInst p) (hn : n ≤ 64) (h : fillWly r p n = some l) : FillOk r p n l
     theorem fillWly_total (r p n) (hr : WfRule r) (hp : WfInst p) (hn : n ≤ 64) : (fillWly r p n).isSome
 
-  `fillWly_total` is proved as it stands.  `fillWly_ok` is FALSE as it stands: an all-day seed (H = ALL_DAY) with
-  BYMINUTE or BYSECOND but no BYHOUR gets instants with H = ALL_DAY and a non-zero minute / second, which are not
-  `WfInst`, e.g.
+  Both are proved as they stand.  History: before `make_enum` was made to ignore BYHOUR / BYMINUTE / BYSECOND next to a
+  DATE seed (RFC 5545, 3.3.10), `fillWly_ok` was false: an all-day seed (H = ALL_DAY) with BYMINUTE or BYSECOND but no
+  BYHOUR got instants with H = ALL_DAY and a non-zero minute / second, which are not `WfInst`, e.g.
     r = { freq := 3, M := [30] }, p = 2020-01-01 (all day):  fillWly r p 3 = 2020-01-01 H=255 M=30, 01-08 …, 01-15 …
-  It is proved under the extra hypothesis `TimeOk r p` (RrOkBase) as `fillWly_ok_partial`.
+  (now: the plain all-day instants, `fillWly_allDay_byminute`).
 
   History: before the guard `if (rr->inter > (UINT_MAX - 31U) / 7U) goto fin;` was put in front of the loop increment
   `d += rr->inter * 7U` (`unsigned int` arithmetic), `fillWly_ok` was false for a second reason: for INTERVAL ≥ 613566753
@@ -31,11 +31,18 @@ theorem fillWly_total (r : Rule) (p : Inst) (n : Nat) (hr : WfRule r) (hp : WfIn
   obtain ⟨l, hl, -⟩ := fillWly_spec r p n hr hp
   rw [hl]; rfl
 
-theorem fillWly_ok_partial (r : Rule) (p : Inst) (n : Nat) (l : List Inst) (hr : WfRule r) (hp : WfInst p)
-    (_hn : n ≤ 64) (ht : TimeOk r p) (h : fillWly r p n = some l) : FillOk r p n l := by
+theorem fillWly_ok (r : Rule) (p : Inst) (n : Nat) (l : List Inst) (hr : WfRule r) (hp : WfInst p)
+    (_hn : n ≤ 64) (h : fillWly r p n = some l) : FillOk r p n l := by
   obtain ⟨l', hl, hok⟩ := fillWly_spec r p n hr hp
   rw [hl] at h
   cases h
-  exact hok ht
+  exact hok
+
+/-- FREQ=WEEKLY;BYMINUTE=30 on the all-day seed 2020-01-01: BYMINUTE is ignored next to a DATE value, the plain all-day
+instants come out (before the repair of `make_enum`: hour ALL_DAY with minute 30) -/
+theorem fillWly_allDay_byminute :
+    fillWly { freq := 3, M := [30] } { y := 2020, m := 1, d := 1, H := 255, M := 0, S := 0, ms := 0 } 2 =
+    some [{ y := 2020, m := 1, d := 1, H := 255, M := 0, S := 0, ms := 0 },
+          { y := 2020, m := 1, d := 8, H := 255, M := 0, S := 0, ms := 0 }] := by decide +kernel
 
 end Echse.Lemmas.RrWlyOk
